@@ -32,6 +32,7 @@ fn read_stub<Fd: std::os::fd::AsFd>(_fd: Fd, buf: &mut [u8]) -> nix::Result<usiz
         assert!(buf.as_ptr() == BUF_PTR && buf.len() == BUF_LEN, "[C17.1-buffer-unchanged] the caller's buffer is passed to the kernel unchanged");
         let k = READS;
         READS += 1;
+        assert!(k == 0 || (k <= 3 && SCRIPT[k - 1] == 0), "[C17.1-stops-at-final-result] another attempt is made although the previous one returned a final result (success or a fatal error): that result is lost");
         if k >= 3 {
             kani::assume(false);
         }
